@@ -478,6 +478,22 @@ func (e *CoreExtension) filterDate(value interface{}, args ...interface{}) (inte
 				dt = time.Unix(int64(v), 0)
 			}
 		default:
+			// A pointer to a date or timestamp is that date; integers and floats
+			// of the other widths (and named number types) are timestamps like
+			// int64 and float64
+			rv := reflect.ValueOf(value)
+			switch rv.Kind() {
+			case reflect.Ptr:
+				if !rv.IsNil() && rv.Elem().CanInterface() {
+					return e.filterDate(rv.Elem().Interface(), args...)
+				}
+			case reflect.Int, reflect.Int8, reflect.Int16, reflect.Int32, reflect.Int64:
+				return e.filterDate(rv.Int(), args...)
+			case reflect.Uint, reflect.Uint8, reflect.Uint16, reflect.Uint32, reflect.Uint64:
+				return e.filterDate(int64(rv.Uint()), args...)
+			case reflect.Float32, reflect.Float64:
+				return e.filterDate(rv.Float(), args...)
+			}
 			// For unknown types, use current time
 			dt = time.Now()
 		}
